@@ -149,6 +149,11 @@ def plan(chk, pid="C07"):
     return specs
 
 
+def _dispatch(spec):
+    from .. import longrun
+    return longrun.long_case(spec) if spec.get("case") == "long" else dispatch(spec)
+
+
 def main():
     chk = core.Check("C07")
     core.build("release")
@@ -158,7 +163,9 @@ def main():
     for sp in specs:
         sp["work"] = chk.workdir
     specs.sort(key=lambda s: -(10 ** s.get("k", 0) if s["case"] == "lanes" else s.get("events", 10**6)))
-    for res in core.parallel(dispatch, specs, jobs=min(core.NPROC, 12)):
+    from ..chain import COIN_NAMES
+    specs.insert(0, dict(case="long", callback="unspentcsvdump", coin=COIN_NAMES[(chk.seed + 1) % 8], seed=chk.seed, n=0, blocks=(140000 if chk.thorough else 70000), verify=False, work=chk.workdir))
+    for res in core.parallel(_dispatch, specs, jobs=min(core.NPROC, 12)):
         chk.absorb(res)
     maxk = 5 if chk.thorough else 4
     chk.finish(RULE, floor={"histories": 10000, "random_histories": 100, "runs": 200},
@@ -169,4 +176,5 @@ def main():
 
 
 def replay(spec):
-    core.replay_case("C07", {"lanes": lanes_case, "random": random_case, "wide": wide_case}, spec)
+    from .. import longrun
+    core.replay_case("C07", {"lanes": lanes_case, "random": random_case, "wide": wide_case, "long": longrun.long_case}, spec)
